@@ -1,5 +1,6 @@
 import TcheranVerif.Model.See
 import TcheranVerif.Proofs.SeeMirror
+import TcheranVerif.Proofs.SeeSwap
 import TcheranVerif.Props.C07
 /-!
 # C20 — static exchange evaluation at threshold 0
@@ -23,8 +24,16 @@ Theorems over the exact model of `see` (`Model/See.lean`, piece values regenerat
   attackers commutes because it is colour-relative (`pickSquare_mirror` — this is exactly what the `fix:`
   of the raw-square tie-break made true; with the old choice the lemma is false). The correspondence
   stream checks that the second position of each request pair is `Game.mirror` of the first.
-Agreement with the independent swap list on tie-free positions is decided by the `see` stream
-(implementation vs. specification): partial.
+* **`see_swaplist`** — the loop keeps one running score and stops early; it never builds a swap list. For every
+  board and every capture of a man other than a king, whenever `see` answers at threshold zero its verdict is
+  `0 ≤ gain − swapAbs capturers placed`: the classical swap list, played out in full over the successive capturers and
+  folded from the back with "capturing is optional", using the same values. (`Proofs/SeeSwap`: `abs_agree` for every
+  sequence of capturers, `loop_trace`, and `trace_good` — at threshold zero the running score is never zero when
+  the opponent is to capture, because every capturable value is an odd multiple of 100 and a king that captures is
+  never captured; with an even value in the table, or another threshold, `≤` in the engine's stop test would be wrong,
+  see the `example` below.) `capturers` is the sequence the model's own bitboard bookkeeping produces (least valuable
+  attacker, x-ray refresh, king rule); that it is the sequence an independent mailbox computation produces on
+  tie-free positions is decided by the `see` stream (implementation vs. `See.swapValue`): that part stays partial.
 -/
 namespace Tcheran.Props.C20
 open Tcheran Tcheran.See
@@ -148,6 +157,69 @@ theorem see_good_trade (g : Game) (mv : Move) (moved captured : Piece) (r : Bool
     rw [← this]
     simpa using hv
 
+/-- parity of the first gain: a capture of a man other than a king, or e.p. -/
+theorem gain_odd (g : Game) (mv : Move)
+    (hcap : ∀ pc, g.board.pieceAt mv.dst = some pc → pc.kind ≠ .king)
+    (hep : g.board.pieceAt mv.dst = none → mv.isEnPassant = true) : gain g mv % 200 = 100 := by
+  unfold gain
+  have hp : ∀ pr : Promo, (pieceValue pr.piece - pieceValue .pawn) % 200 = 0 := by
+    intro pr; cases pr <;> decide
+  cases hd : g.board.pieceAt mv.dst with
+  | none =>
+    simp only [hep hd, if_true]
+    have : pieceValue .pawn % 200 = 100 := by decide
+    cases hpr : mv.promotion with
+    | none => simp only; omega
+    | some pr => simp only; have := hp pr; omega
+  | some pc =>
+    have := value_odd pc.kind (hcap pc hd)
+    cases hpr : mv.promotion with
+    | none => simp only; omega
+    | some pr => simp only; have := hp pr; omega
+
+/-- **see_swaplist**: at threshold zero the verdict of `see` is the sign of the full swap list over the successive
+capturers — for every board, every capture of a man other than a king (e.p. and promotions included); a king that
+makes the first capture is required not to be capturable (as after every legal king move) -/
+theorem see_swaplist (g : Game) (mv : Move) (moved : Piece) (occ : BB) (r : Bool)
+    (hsrc : g.board.pieceAt mv.src = some moved) (hocc : occAfter g mv = some occ)
+    (hcap : ∀ pc, g.board.pieceAt mv.dst = some pc → pc.kind ≠ .king)
+    (hep : g.board.pieceAt mv.dst = none → mv.isEnPassant = true)
+    (hking : moved.kind = .king →
+      (allAttackersOf g.board mv.dst occ &&& occ) &&& g.board.occFor g.player.other = 0#64)
+    (h : see g mv 0 = some r) :
+    r = decide (0 ≤ gain g mv - swapAbs (capturers g mv moved occ) (pieceValue (placed moved mv))) := by
+  obtain ⟨final, hl, hr⟩ := see_unfold g mv moved occ r hsrc hocc h
+  have ht := loop_trace g.board g.player mv.dst 64 _ final hl
+  have hflag : decide ((initSt g mv moved occ).color.other ≠ g.player) = true := by
+    simp only [initSt]; exact decide_eq_true (other_ne g.player)
+  rw [hflag] at ht
+  have hgood : Good (capturers g mv moved occ) (pieceValue (placed moved mv)) := by
+    apply trace_good g.board g.player mv.dst 64 (initSt g mv moved occ)
+    intro hk
+    apply hking
+    simp only [initSt, placed] at hk
+    cases hp : mv.promotion with
+    | none => rw [hp] at hk; exact hk
+    | some pr => rw [hp] at hk; cases pr <;> cases hk
+  have := (abs_agree (capturers g mv moved occ) (gain g mv) (pieceValue (placed moved mv)) hgood).1
+    (gain_odd g mv hcap hep)
+  rw [hr]
+  have e : final = loopAbs (capturers g mv moved occ) true (gain g mv) (pieceValue (placed moved mv)) := ht
+  rw [e]
+  exact decide_eq_decide.2 this
+
+/-- why the parity matters: on a sequence with an even value the engine's stop test (`≤` for the opponent) and the
+swap list part ways — N takes P (+100), the opponent's 100-point man retakes the knight worth 200 in this imaginary
+table … here simply: running score 0 with the opponent to capture a man worth 300 for free -/
+example : (0 ≤ loopAbs [100] true 0 300) ∧ ¬ (0 ≤ (0 : Int) - swapAbs [100] 300) := by decide
+
+/-- non-vacuity of `abs_agree`: pawn takes pawn, pawn retakes, knight retakes, nothing else — and a losing line:
+queen takes a pawn defended by a pawn -/
+example : Good [100, 300] 100 ∧ (0 ≤ loopAbs [100, 300] true 100 100) ∧ (0 ≤ (100 : Int) - swapAbs [100, 300] 100) :=
+  ⟨⟨by decide, by decide, trivial⟩, by decide, by decide⟩
+example : Good [100] 900 ∧ ¬ (0 ≤ loopAbs [100] true 100 900) ∧ ¬ (0 ≤ (100 : Int) - swapAbs [100] 900) :=
+  ⟨⟨by decide, trivial⟩, by decide, by decide⟩
+
 example : pieceValue .queen = 900 := by decide
 
 /-- the slider tables of the engine are the ray walks (`Props.C07`) -/
@@ -182,3 +254,5 @@ end Tcheran.Props.C20
 #print axioms Tcheran.Props.C20.sliderTables
 #print axioms Tcheran.Props.C20.see_mirror
 #print axioms Tcheran.Props.C20.tie_break_mirror
+#print axioms Tcheran.Props.C20.gain_odd
+#print axioms Tcheran.Props.C20.see_swaplist
